@@ -656,6 +656,16 @@ func (obj *SparseInt32Matrix) UnmarshalJSON(data []byte) error {
   if len(r.Index) != len(r.Value) {
     return fmt.Errorf("invalid sparse vector")
   }
+  if r.Rows < 0 || r.Cols < 0 || (r.Cols != 0 && r.Rows*r.Cols/r.Cols != r.Rows) {
+    return fmt.Errorf("invalid sparse matrix")
+  }
+  indices := make(map[int]bool)
+  for _, k := range r.Index {
+    if k < 0 || k >= r.Rows*r.Cols || indices[k] {
+      return fmt.Errorf("invalid sparse matrix")
+    }
+    indices[k] = true
+  }
   obj.values = NewSparseInt32Vector(r.Index, r.Value, r.Rows*r.Cols)
   obj.rows = r.Rows
   obj.rowMax = r.Rows
